@@ -68,12 +68,14 @@ Record parser := mkParser {
   incl_decls : list N                (* _included_declarations (a set of objects) *)
 }.
 
-Inductive exc := FFIError | ValueError | TypeError | RuntimeError | AttributeError.
+(* OutOfFuel is not a Python exception: it is the model's own "ran out of recursion fuel" outcome, kept apart
+   from the RuntimeError of the recursion cap (C34_never_out_of_fuel: it never occurs) *)
+Inductive exc := FFIError | ValueError | TypeError | RuntimeError | AttributeError | OutOfFuel.
 
 Definition exc_eqb (a b : exc) : bool :=
   match a, b with
   | FFIError, FFIError | ValueError, ValueError | TypeError, TypeError
-  | RuntimeError, RuntimeError | AttributeError, AttributeError => true
+  | RuntimeError, RuntimeError | AttributeError, AttributeError | OutOfFuel, OutOfFuel => true
   | _, _ => false
   end.
 
@@ -203,7 +205,7 @@ Section DFS.
   (* if (included == NULL) return NULL; if (recursion > 100) RuntimeError; the loop *)
   Fixpoint dfs (fuel : nat) (w : world) (included : list nat) (recursion : nat) : fres A :=
     match fuel with
-    | O => Error RuntimeError
+    | O => Error OutOfFuel
     | S f =>
       match included with
       | [] => NotFound
